@@ -286,6 +286,9 @@ func checkC15(c *Check) {
 	// ---- R7 what Recovery itself calls does not panic again
 	c.Rule("R7", "shared with C13 (R2, R3)", "Recovery answers through ResponseWriter.WriteHeader: the before-functions run under the writer's once-guard (a hook that panicked is not run a second time by Recovery's own WriteHeader(500))", 4)
 	c.Share("C13", []string{"R2", "R3"}, 4)
+	c.Rule("R8", "shared with C13 (R6) and C03 (R3, R4)", "Recovery decides between answering and keeping quiet by Written(), and the run loop stops on the same writer's Written(): Written() is true exactly when a status line went out (not marked by operations that send none), and the loop asks the context's own writer, not a fresh wrapper", 4)
+	c.Share("C13", []string{"R6"}, 1)
+	c.Share("C03", []string{"R3", "R4"}, 3)
 	// the attempt is consumed before the hooks run: a `!Written()` test alone (accepted by C13 for the single
 	// status line) lets Recovery's own WriteHeader(500) run a hook again that has just panicked
 	{
